@@ -255,6 +255,15 @@ def stepAll (d : DSt) (toks : List String) : DSt × String :=
       if sortCache last == sortCache fin then (d, "true")
       else (d, s!"false last-group-snapshot={showCache last} cluster={showCache fin}")
     | _, _ => (d, "bad-op")
+  | "oracle" :: "op-group-any" :: rest =>
+    -- group form with several queues: SOME Group execution shows the final matching state of this
+    -- binding (`views` = the binding's snapshot in every execution that carried one, `|`-separated;
+    -- executions of different queues are not ordered by their start, so "the last one" means nothing)
+    match (kv? "views" rest).map (fun v => (v.splitOn "|").mapM parseCache), (kv? "final" rest).bind parseCache with
+    | some (some views), some fin =>
+      if views.any (fun v => sortCache v == sortCache fin) then (d, "true")
+      else (d, s!"false no-group-snapshot-shows-the-final-state cluster={showCache fin}")
+    | _, _ => (d, "bad-op")
   | "oracle" :: "m-delivered" :: rest =>
     -- the property at monitor level: a change made in EVERY namespace of the monitor after the
     -- unlock settled reached the hook (want ⊆ got)
